@@ -128,6 +128,11 @@ func Param(name string, def int) int {
 	return def
 }
 
+// Option switches an engine model on or off for the rest of the path (e.g.
+// "fnv.real": execute the real hash/fnv code instead of its model).  Natively
+// a no-op: the real code always runs.
+func Option(name string, on bool) {}
+
 // Symbolic reports whether the harness runs under gosym (symbolic mode).
 func Symbolic() bool { return false }
 
